@@ -14,10 +14,15 @@ import sx
 STEP, WRAP = 'm32', 'm33'
 
 
+ALLOW_DETECTOR = [True]     # the deadlock detector does not influence the engine; its digraph is not part of the model
+
+
 def in_scope2(cfg):
-    """configurations the stage-2 model covers: everything except processor sharing, exact arithmetic and the deadlock
-    detector (whose state is not part of the model)."""
-    if cfg.get('exact') or cfg.get('detector'):
+    """configurations the stage-2 model covers: everything except processor sharing and exact arithmetic (the deadlock
+    detector's own state is not part of the model, the engine under it is)."""
+    if cfg.get('exact'):
+        return False
+    if cfg.get('detector') and not ALLOW_DETECTOR[0]:
         return False
     if cfg.get('ps') is not None and any(cfg['ps']):
         return False
@@ -332,6 +337,8 @@ def check_trace(tr, drv, max_frames=80, mask=None, detail=False):
             if k > call_start[0]:
                 return tr.frames[k - 1]['now']
             return (tr.init['now'] if ci == 0 else now)
+        if r[0] == 'deadlock':      # simulate_until_deadlock: time_of_deadlock = the clock of the event that closed the knot
+            return tr.frames[k - 1]['now'] if k > call_start[0] else None
         return None
 
     def do_wrap(ci, k):
